@@ -15,6 +15,7 @@
   into a statement about every reachable state.
 -/
 import KmipModel.Model.SrvConn
+import KmipModel.Model.Recover
 import KmipModel.Gen.CertSrvConn
 import KmipModel.Props.C09
 import KmipModel.Lemmas.LtsLemmas
@@ -67,6 +68,91 @@ theorem no_stuck_after_cancel : ∀ s, Reachable (sys current) s → s.ctxDone =
     have := no_stuck s hr hs
     simp [waitsOnPipelined, hc] at this
 
+/-! ### … and the goroutines do END (termination, not only absence of deadlock)
+  `no_stuck` alone would be satisfied by a connection that spins for ever. The steps of the server
+  itself (everything except actions of the client and of the caller of Shutdown: `Ev.isEnv`) strictly
+  decrease `SrvConn.rank` in every reachable state (checked by the kernel, state by state, as part of
+  the certificate), so every run of such steps is finite — at most `rank s ≤ 275` steps — and where it
+  stops `no_stuck` applies. What is NOT claimed: a bound in time (the Go scheduler is not modelled),
+  nor termination while the environment keeps acting (a client that keeps sending is served for ever;
+  the model also lets bytes "in flight" be read after the client has gone, a finite amount in
+  reality). -/
+
+/-- the successors by a step of the server itself. -/
+def internal (s : State) : List State :=
+  ((stepL current s).filter (fun e => !e.1.isEnv)).map (·.2)
+
+theorem internal_subset_step (s t : State) (h : t ∈ internal s) : t ∈ (sys current).step s := by
+  simp only [internal, List.mem_map, List.mem_filter] at h
+  obtain ⟨e, ⟨he, _⟩, rfl⟩ := h
+  exact List.mem_map.mpr ⟨e, he, rfl⟩
+
+/-- every step of the server itself strictly decreases the rank. -/
+theorem internal_step_decreases : ∀ s, Reachable (sys current) s → ∀ t ∈ internal s,
+    rank t < rank s := by
+  intro s hr t ht
+  have h := (bad_parts (srvconn_safe s hr)).2.2.2.2.2.1
+  simp only [internal, List.mem_map, List.mem_filter] at ht
+  obtain ⟨e, ⟨he, henv⟩, rfl⟩ := ht
+  have := List.all_eq_true.mp h e he
+  cases hv : e.1.isEnv
+  · simpa [hv, Nat.blt_eq] using this
+  · simp [hv] at henv
+
+theorem rank_le (s : State) : rank s ≤ 275 := by
+  have hm : s.m.rank ≤ 109 := by cases s.m <;> decide
+  have hr : s.r.rank ≤ 7 := by cases s.r <;> decide
+  have hw : s.w.rank ≤ 109 := by cases s.w <;> decide
+  have hc : (bif s.errClosed then 50 else 0) ≤ 50 := by cases s.errClosed <;> decide
+  simp only [rank, Nat.add_eq]
+  omega
+
+/-- no infinite activity without input: a run of steps of the server itself from a reachable state
+    has at most `rank s` (≤ 275) steps. -/
+theorem internal_runs_bounded : ∀ s, Reachable (sys current) s → ∀ run, Run internal s run →
+    run.length ≤ rank s ∧ rank s ≤ 275 := by
+  intro s hr run hrun
+  refine ⟨?_, rank_le s⟩
+  exact run_length_le internal rank (Reachable (sys current))
+    (fun a b ha hb => Reachable.step ha (internal_subset_step a b hb))
+    (fun a b ha hb => internal_step_decreases a ha b hb) run s hr hrun
+
+/-- where the server's own activity stops after the client has gone or the connection context is
+    cancelled, all three goroutines HAVE ended — or it is the recorded exception. With
+    `internal_runs_bounded`: a connection whose client has gone ends its goroutines within 275 steps
+    of its own, unless the environment (more buffered input, Shutdown) acts in between, and except
+    `waitsOnPipelined`. -/
+theorem goroutines_end_after_disconnect : ∀ s, Reachable (sys current) s →
+    (s.cliGone = true ∨ s.ctxDone = true) → internal s = [] →
+    allEnded s = true ∨ waitsOnPipelined s = true := by
+  intro s hr hg hq
+  cases he : allEnded s with
+  | true => exact Or.inl rfl
+  | false =>
+    refine Or.inr (no_stuck s hr ?_)
+    have hp := bad_parts (srvconn_safe s hr)
+    have hf : s.fault.is .none = true := by
+      have h1 := hp.1
+      have h3 := hp.2.2.1
+      have h4 := hp.2.2.2.1
+      have h5 := hp.2.2.2.2.1
+      simp only [crashed, misordered, invalidBad, hookBad, Bool.or_eq_false_iff] at h1 h3 h4 h5
+      cases hfl : s.fault <;> simp_all [Fault.is, Fault.toNat]
+    have hall : (stepL current s).all (fun e => e.1.isEnv) = true := by
+      rw [List.all_eq_true]
+      intro e hmem
+      cases hv : e.1.isEnv with
+      | true => rfl
+      | false =>
+        have : e.2 ∈ internal s := by
+          simp only [internal, List.mem_map, List.mem_filter]
+          exact ⟨e, ⟨hmem, by simp [hv]⟩, rfl⟩
+        rw [hq] at this
+        cases this
+    have hg' : (s.cliGone || s.ctxDone) = true := by
+      rcases hg with h | h <;> simp [h]
+    simp [stuck, hg', he, hf, hall]
+
 /-- every response written is the answer to the oldest unanswered request (no overtaking, no
     duplicate, no response without request), and whenever the connection is live and idle every
     request read has been answered. -/
@@ -81,6 +167,37 @@ theorem answers_in_order : ∀ s, Reachable (sys current) s →
     rcases h.2 with h2 | h2
     · rw [hi] at h2; cases h2
     · cases hfl : s.fl <;> simp [Cnt.is, Cnt.toNat, hfl] at h2 ⊢
+
+/-- … and requests ARE answered: whenever the server has nothing left to do by itself (`quiet`; reached
+    within `rank` steps: `internal_runs_bounded`) on a connection that is live — client there,
+    context not cancelled, not closed — either every decodable request read has been answered, or the
+    writer is in `stream.Send` waiting for the client to take the response, or the handler is one
+    that waits for the cancellation of its context. -/
+theorem requests_are_answered : ∀ s, Reachable (sys current) s → quiet current s = true →
+    s.cliGone = false → s.ctxDone = false → s.closed = false →
+    s.fl = .zero ∨ s.w = .io ∨ s.m = .handleSlow := by
+  intro s hr hq hg hc hcl
+  have h := (bad_parts (srvconn_safe s hr)).2.2.2.2.2.2.1
+  simp only [unansweredBad, hq, hg, hc, hcl, Bool.not_false, Bool.true_and, Bool.and_eq_false_iff,
+    Bool.not_eq_false'] at h
+  rcases h with (h | h) | h
+  · left; cases hf : s.fl <;> simp [Cnt.is, Cnt.toNat, hf] at h ⊢
+  · right; left; cases hw : s.w <;> simp [WPc.is, WPc.toNat, hw] at h ⊢
+  · right; right; cases hm : s.m <;> simp [MPc.is, MPc.toNat, hm] at h ⊢
+
+/-- likewise for a correctly framed message that cannot be decoded: once the owner has taken it, on a
+    live and quiet connection the invalid-message response has been written or is in `stream.Send`
+    waiting for the client to take it ("at least one"; "at most one" is the next theorem). -/
+theorem invalid_message_is_answered : ∀ s, Reachable (sys current) s → quiet current s = true →
+    s.cliGone = false → s.ctxDone = false → s.closed = false → s.invProd = true →
+    s.invWr = true ∨ s.w = .io := by
+  intro s hr hq hg hc hcl hp
+  have h := (bad_parts (srvconn_safe s hr)).2.2.2.2.2.2.2
+  simp only [invalidUnansweredBad, hq, hg, hc, hcl, hp, Bool.not_false, Bool.true_and,
+    Bool.and_eq_false_iff, Bool.not_eq_false'] at h
+  rcases h with h | h
+  · left; exact h
+  · right; cases hw : s.w <;> simp [WPc.is, WPc.toNat, hw] at h ⊢
 
 /-- a correctly framed message that cannot be decoded is answered with at most ONE invalid-message
     response (written only after it was produced), and the connection serves nothing after it. -/
@@ -109,7 +226,7 @@ theorem conn_hooks_paired : ∀ s, Reachable (sys current) s →
     (s.m = .ended → s.termHook = s.hookOk) ∧
     (s.termHook = true → s.m ≠ .hook ∧ s.m ≠ .handle ∧ s.m ≠ .handleSlow ∧ s.m ≠ .recvSel) := by
   intro s hr
-  have h := (bad_parts (srvconn_safe s hr)).2.2.2.2
+  have h := (bad_parts (srvconn_safe s hr)).2.2.2.2.1
   simp only [hookBad, Bool.or_eq_false_iff, Bool.and_eq_false_iff] at h
   refine ⟨?_, ?_, ?_, ?_⟩
   · intro hf; simp [Fault.is, Fault.toNat, hf] at h
@@ -126,13 +243,38 @@ theorem conn_hooks_paired : ∀ s, Reachable (sys current) s →
     · rw [ht] at h2; cases h2
     · cases hm : s.m <;> simp [MPc.is, MPc.toNat, hm] at h2 ⊢
 
-/-- isolation / any number of connections: in the interleaved product of `n` connections (a step of
-    the product is a step of ONE component and leaves the others untouched —
+/-- isolation / any number of connections, safety half: in the interleaved product of `n` connections
+    (a step of the product is a step of ONE component and leaves the others untouched —
     `Lts.prodStep_isolated`), every component is a reachable state of the single-connection model,
-    hence not bad. -/
+    hence not bad. NOTE what this is: the product has no variable shared between connections BY
+    CONSTRUCTION (the server and receive contexts reach each connection as its own environment
+    events); the theorem transfers the per-connection results to any number of connections under
+    that modelling assumption. That the real server shares nothing else that a connection can hold
+    (a lock around the handler, a worker pool, the accept loop doing per-connection work) is checked
+    on the real code by the `iso` and `tls` jobs of `lts.srv`, not proved. -/
 theorem isolation (n : Nat) : ∀ ss, Reachable (prod (sys current) n) ss →
     ∀ s ∈ ss, bad current s = false :=
   prod_safe (sys current) n (bad current) srvconn_safe
+
+/-- isolation, progress half: no connection can be BLOCKED by the others — whatever states the other
+    connections are in (a handler that never returns, a client that does not read, goroutines kept
+    by the open finding), every step a connection could take alone it can take in the product, and it
+    changes nothing else. -/
+theorem isolation_progress (n : Nat) (ss : List State) (i : Nat) (s t : State)
+    (hi : ss[i]? = some s) (ht : t ∈ (sys current).step s) :
+    setAt ss i t ∈ (prod (sys current) n).step ss :=
+  setAt_mem_prodStep (sys current) ss i s t hi ht
+
+/-- such a situation exists (two connections): the handler of connection 0 waits for a cancellation
+    that nobody sends — its client is still there, its context is not cancelled: it will stay so for
+    ever — while connection 1 has had its request answered. -/
+theorem blocked_connection_and_served_neighbour :
+    ∃ ss, Reachable (prod (sys current) 2) ss ∧
+      (match ss with
+       | [a, b] => a.m.is .handleSlow && !a.ctxDone && !a.cliGone && b.w.is .closeOk && b.fl.is .zero
+       | _ => false) = true :=
+  exists_reachable_of_follow (prod (sys current) 2)
+    [0, 0, 1, 1, 0, 1, 4, 4, 5, 6, 4, 4, 4, 5, 4, 5] _ (by decide +kernel)
 
 /-! ### the full statement is false of the current code: one exception -/
 
@@ -182,7 +324,9 @@ open Kmip.Batch in
     answered with its own result (corollary of `C09.one_item_per_request_item`,
     `C09.continue_semantics`, `C09.itemResult_failed`; under Stop the later items are answered
     "cancelled" instead: `C09.stop_semantics`). `Batch.execFull` is total: a handler panic is a
-    value of the model (`Outcome.panicTyped/.panicOther`), recovered in `executeItem`. -/
+    value of the model (`Outcome.panicTyped/.panicOther`), recovered in `executeItem`. The outcome
+    alphabet of the batch model contains only values the server can RENDER; for the others see
+    `C08_outcomes_full_false` below. -/
 theorem handler_outcome_is_an_item (srv : Srv) (req : Req) (h : Accepted srv req)
     (hns : req.opt ≠ optStop) (j : Nat) (it : Item) (hj : req.items[j]? = some it)
     (hd : dispatched srv it = true) :
@@ -197,6 +341,51 @@ theorem handler_outcome_is_an_item (srv : Srv) (req : Req) (h : Accepted srv req
   rw [C09.itemResult_failed]
   simp only [dispatched, Bool.and_eq_true, bne_iff_ne, ne_eq] at hd
   exact Or.inr (Or.inl ⟨hd.2, hout⟩)
+
+/-! ### handler outcomes whose RENDERING panics: false of the current code
+  `handler_outcome_is_an_item` is about the outcome alphabet of the batch model — success, typed
+  error, plain error, panic with a typed error, panic with anything else — all of which are values the
+  server can render. The property says "panic with ANY value". `Kmip.Recover` models the step the
+  batch model leaves out: rendering an error / a panic value runs its `Error`, `String`, `Unwrap`
+  methods — user code — and where that panics the current code has no recover. Confirmed on the real
+  server by `lts.srv` and `srv.http` (behaviours `pnilerr`, `rnilerr`, `pbadstringer`, `pbaderr`,
+  `pbadunwrap`: the child process dies). -/
+
+open Kmip.Recover in
+/-- the clause at full strength: every outcome of an operation handler becomes one response item. -/
+def C08_outcomes_full (p : Recover.Params) : Prop :=
+  ∀ o : Recover.Outcome, ∃ failed, Recover.run p o = .item failed
+
+open Kmip.Recover in
+/-- false of the current code: an error (or panic value) whose rendering panics kills the process. -/
+theorem poisoned_outcome_kills_the_process :
+    Recover.run Recover.current (.err .panics) = .processDies ∧
+    Recover.run Recover.current (.panic .panics) = .processDies := ⟨rfl, rfl⟩
+
+theorem C08_outcomes_full_false : ¬ C08_outcomes_full Recover.current := by
+  intro h
+  obtain ⟨f, hf⟩ := h (.err .panics)
+  cases hf
+
+open Kmip.Recover in
+/-- what holds of the current code: every outcome the server can render is answered with one item,
+    failed unless the handler succeeded. -/
+theorem benign_outcome_is_an_item (o : Recover.Outcome) (hb : o.benign = true) :
+    Recover.run Recover.current o = .item (o != .ok) := by
+  cases o with
+  | ok => rfl
+  | err r => cases r <;> simp_all [Recover.Outcome.benign] <;> rfl
+  | panic r => cases r <;> simp_all [Recover.Outcome.benign] <;> rfl
+
+open Kmip.Recover in
+/-- with the proposed repair (a recover around the whole of `executeItemWithMiddleware`) the clause
+    holds at full strength. -/
+theorem C08_outcomes_full_of_guard : C08_outcomes_full Recover.repaired := by
+  intro o
+  cases o with
+  | ok => exact ⟨false, rfl⟩
+  | err r => cases r <;> exact ⟨true, rfl⟩
+  | panic r => cases r <;> exact ⟨true, rfl⟩
 
 /-! ### non-vacuity -/
 
